@@ -19,6 +19,7 @@ def run(sh):
         case = gen.gen_pipeline_case(rng)
         api = 'func' if rng.random() < 0.7 else 'obj'
         case['reuse_options'] = bool(rng.random() < 0.3)
+        case['switch_filter_length'] = bool(rng.random() < 0.35)
         pipeline.run_case(sh, case, PROP, api=api, nontrivial=nontrivial)
     for k, v in attach.COUNTS.items():
         if k.startswith('C01:'):
